@@ -86,6 +86,12 @@ def run (args : List String) : Option String :=
              else if form = "keyword" then some CallForm.keyword
              else if form = "allkeyword" then some CallForm.allKeyword else none)
     pure (if callFormAccepted name f then "accepted" else "ERR:TypeError")
+  | ["foreign", w, e, st] => do
+    let w ← parseBool? w; let e ← parseBool? e; let st ← parseBool? st
+    match foreignIdentity w e st with
+    | .ok .wkt => pure "wkt"
+    | .ok .itself => pure "itself"
+    | .error _ => pure "ERR:CRSError"
   | ["convops"] => some (",".intercalate convTable)
   | ["eqops"] => some (",".intercalate eqTable)
   | ["tageq", a, b] => do
